@@ -36,16 +36,16 @@ BASE_NOTE = ("Decided relative to the repository's own simulated kernel (Virtual
              "feature verif-hooks; seeded sampling, not enumeration, unless stated; probe built-ins and the outer scheduler are harness code.")
 
 check("C13", "exploration",
-      "Race-free generated shell programs with up to ~6 concurrently live processes run whole on the simulated OS under a seeded scheduler (FIFO baseline, random, PCT, round-robin, FIFO-with-deviations) with preemption at kernel-call boundaries and short I/O; oracles: termination (deadlock = no runnable task and no timer), stdout/$?/final status equal to a reference interpreter of the generator AST and identical across schedules, wait results equal exit statuses and never precede exit, every awaited child reaped exactly once, no zombie. Sampling many interleavings is the right level because the property is quantified over schedules the test suite's single FIFO executor never produces.",
+      "Race-free generated shell programs with up to ~6 concurrently live processes run whole on the simulated OS under a seeded scheduler (FIFO baseline, random, PCT, round-robin, FIFO-with-deviations) with preemption at kernel-call boundaries and short I/O; oracles: termination (deadlock = no runnable task and no timer), stdout/$?/final status equal to a reference interpreter of the generator AST and identical across schedules, wait results equal exit statuses and never precede exit, every awaited child reaped exactly once, no zombie. Separate fault configurations with a narrowly relaxed oracle (termination, true wait statuses, nothing runs after its death): the k-th fork fails with EAGAIN; children are killed with SIGKILL from outside at seeded instants (crash injection). A fifth of the programs trap SIGUSR1 in the main shell and have foreground children send it. Sampling many interleavings is the right level because the property is quantified over schedules the test suite's single FIFO executor never produces.",
       BASE_NOTE, "deterministic simulation: seeded scheduler on the Executor seam + preemption hooks, reference-interpreter oracle", "DESIGN.md section 4 C13")
 
 check("C14", "exploration",
-      "gen|relay|sink pipelines with payload sizes around every pipe-buffer boundary up to 4x capacity, command substitutions (plain/piped/nested/in-stage, 0-3 trailing newlines, multi-byte UTF-8), here-documents and the real read built-in on a slow producer, executed under seeded schedules with preemption at every read/write, short reads, legal partial writes and simulator-sent signals to stages that installed a trap; exact byte-stream oracle (length, first deviating offset, hash) computed by the generator; deadlock/livelock detection. The property is quantified over schedules x sizes, which only controlled scheduling of the real pipe code reaches.",
+      "gen|relay|sink pipelines with payload sizes around every pipe-buffer boundary up to 4x capacity, command substitutions (plain/piped/nested/in-stage, 0-3 trailing newlines, multi-byte UTF-8), here-documents, the real read built-in on a slow producer, two processes writing PIPE_BUF-sized records to one pipe (no record torn) and two processes reading one pipe (every byte reaches exactly one of them), executed under seeded schedules with preemption at every read/write, short reads, legal partial writes and simulator-sent signals to stages that installed a trap; exact byte-stream oracle (length, first deviating offset, hash) computed by the generator; deadlock/livelock detection. The property is quantified over schedules x sizes, which only controlled scheduling of the real pipe code reaches.",
       BASE_NOTE + " SIGPIPE is not modelled by the simulated kernel, so the early-exiting-reader cases check liveness and prefix integrity only.",
       "deterministic simulation: seeded scheduler + short-I/O/preemption/signal fault injection, exact byte-stream oracle", "DESIGN.md section 4 C14")
 
 check("C18", "exploration",
-      "Generated scripts (commands mixed with data lines read from the same input, alias/option changes affecting later lines, multi-line constructs, here-documents, planted syntax errors, a final consumer of the remaining input) are fed as a regular file, through a pipe written by a simulated feeder process in seeded chunk sizes under seeded schedules with preemption at every read, as a -c string and as a command file; oracles: trace/status equality with the generator's expectation in every variant and chunking, and at every `tell` probe the input has been consumed exactly to the end of the running command's last line (lseek offset for files; bytes read from fd 0 according to kernel events for pipes).",
+      "Generated scripts (commands mixed with data lines read from the same input, alias/option changes affecting later lines, multi-line constructs, here-documents in every position where the grammar lets a newline follow the operator, planted syntax errors, a final consumer of the remaining input) are fed as a regular file, through a pipe written by a simulated feeder process in seeded chunk sizes under seeded schedules with preemption at every read, as a -c string and as a command file; oracles: trace/status equality with the generator's expectation in every variant and chunking, and at every `tell` probe the input has been consumed exactly to the end of the running command's last line (lseek offset for files; bytes read from fd 0 according to kernel events for pipes).",
       BASE_NOTE, "deterministic simulation: simulated feeder process with seeded chunking + seeded scheduler; offset invariant from kernel read events", "DESIGN.md section 4 C18")
 
 check("C09", "fault_enumeration",
@@ -54,7 +54,7 @@ check("C09", "fault_enumeration",
       "deterministic simulation with enumerated fault injection (every fd-allocation failure position per program) + reference redirection-table model", "DESIGN.md section 4 C09")
 
 check("C08", "exploration",
-      "Generated programs place 34 kinds of state-mutating commands before and inside every kind of subshell (( ), $( ), both pipeline elements, asynchronous lists, nested to depth 3); a probe serialises the complete shell state (variables+attributes, positional parameters, functions, aliases, options, traps, cwd, umask, limits, descriptor table by open-file-description identity, signal dispositions, mask) around each one. Oracles: the parent's snapshot is unchanged by whatever the child does - also while an asynchronous child is still running, under seeded schedules with preemption between any two kernel calls of the parent; the child's entry snapshot equals the parent's except exactly the documented differences; data written to shared files/pipes arrives (positive control). A virtual fork is an in-memory clone sharing reference-counted parts, so leaks are schedule dependent - which only a controlled scheduler explores.",
+      "Generated programs place 39 kinds of state-mutating commands (including closing descriptor 0, array values and starting asynchronous jobs) before and inside every kind of subshell (( ), $( ), both pipeline elements, asynchronous lists, nested to depth 3); a probe serialises the complete shell state (variables+attributes, positional parameters, functions, aliases, options, traps, cwd, umask, limits, descriptor table by open-file-description identity, signal dispositions, mask) around each one. Oracles: the parent's snapshot is unchanged by whatever the child does - also while an asynchronous child is still running, under seeded schedules with preemption between any two kernel calls of the parent; the child's entry snapshot equals the parent's except exactly the documented differences; data written to shared files/pipes arrives (positive control). A virtual fork is an in-memory clone sharing reference-counted parts, so leaks are schedule dependent - which only a controlled scheduler explores.",
       BASE_NOTE, "deterministic simulation: full-state snapshots around subshells under seeded schedules with preemption", "DESIGN.md section 4 C08")
 
 check("C15", "exploration",
@@ -63,12 +63,12 @@ check("C15", "exploration",
       "deterministic simulation of wake/poll orderings with lock-step reference scheduler model", "DESIGN.md section 4 C15")
 
 check("C12", "exploration",
-      "One invariant checker (the statement's invariants through the public JobList API, job-ID resolution, plus the transition rules documented on insert/remove/update_status/set_current_job), two engines: seeded event histories of up to 30 events applied to the real JobList - the legal oddities a kernel may deliver in any order, including pid reuse by a new job, duplicate and unexpected reports, reports for unknown pids - checked after every event; and whole-shell runs under set -m on the simulated OS where children stop themselves, are stopped, continued and killed by the script and by the simulator at seeded steps under seeded schedules, with a jobcheck probe evaluating the invariants on Env::jobs after every command, inside loops and functions and from the EXIT trap.",
+      "One invariant checker (the statement's invariants through the public JobList API, job-ID resolution - %%, %+, %-, %n and %name / %?name against a reference with not-found and ambiguous outcomes -, plus the transition rules documented on insert/remove/update_status/set_current_job), two engines: seeded event histories of up to 30 events applied to the real JobList - the legal oddities a kernel may deliver in any order, including pid reuse by a new job, duplicate and unexpected reports, reports for unknown pids - checked after every event; and whole-shell runs under set -m on the simulated OS where children stop themselves, are stopped, continued and killed by the script and by the simulator at seeded steps under seeded schedules, with a jobcheck probe evaluating the invariants on Env::jobs after every command, inside loops and functions and from the EXIT trap.",
       BASE_NOTE + " Histories are sampled with swarm-varied event mixes, not enumerated breadth-first (that would be model checking).",
       "deterministic simulation: seeded job-event histories + whole-shell job control with simulator-injected stop/continue/kill; invariant checker", "DESIGN.md section 4 C12")
 
 check("C11", "exploration",
-      "Two engines. (a) Seeded operation histories (set trap action default/ignore/command with and without override, enable/disable each group of internal dispositions, enter a subshell with each option combination, mark/take caught signals) x initial dispositions x nine signal classes incl. KILL/STOP and EXIT drive the real TrapSet against the real Concurrent<VirtualSystem>; after every operation the disposition and mask read back from the simulated process, the listing and the returned error must equal a reference merge written from the documentation (effective = max(internal, trap action); refused iff ignored on entry and not overridden; KILL/STOP never). (b) Whole scripts with USR1/USR2 traps while the simulator delivers signals to the shell at seeded scheduler steps, with preemption between any two kernel calls: stdout, every printed $? and the final status must equal the signal-free run; trap runs == deliveries (spaced) or 1..=deliveries (burst), never nested.",
+      "Two engines. (a) Seeded operation histories (set trap action default/ignore/command with and without override, enable/disable each group of internal dispositions, enter a subshell with each option combination, mark/take caught signals) x initial dispositions x nine signal classes incl. KILL/STOP and EXIT drive the real TrapSet against the real Concurrent<VirtualSystem>; after every operation the disposition and mask read back from the simulated process, the listing and the returned error must equal a reference merge written from the documentation (effective = max(internal, trap action); refused iff ignored on entry and not overridden; KILL/STOP never). (b) Whole scripts with USR1/USR2 traps while the simulator delivers signals to the shell at seeded scheduler steps, with preemption between any two kernel calls: stdout, every printed $? and the final status must equal the signal-free run; trap runs == deliveries (spaced) or 1..=deliveries (burst), never nested; two fifths of the scripts leave the shell while still armed (`exit $(slow)`, errexit on a slow failing subshell), where the last command boundary is the one after the command that ends the shell.",
       BASE_NOTE, "deterministic simulation: operation histories vs reference merge model + signal injection at seeded scheduler steps vs pending-flag model", "DESIGN.md section 4 C11")
 
 check("C19", "exploration",
